@@ -191,6 +191,9 @@ def check_single(ctx, synth, text, with_comments, origin):
         except RecursionError:
             ctx.count('skipped:resource_limit')
             continue
+        except Exception as e:
+            ctx.count('printer_raised:%s' % type(e).__name__)      # C01 / C02 report that; no fragments to judge
+            continue
         viol = run_fragments(ctx, frags, {'src/one.js': src}, 'src/one.js',
                              (text, pname, with_comments), origin, text)
         seen = set()
@@ -279,6 +282,9 @@ def check_multi(ctx, synth, texts, origin):
                     be.sourcepath = None
         except RecursionError:
             ctx.count('skipped:resource_limit')
+            continue
+        except Exception as e:
+            ctx.count('printer_raised:%s' % type(e).__name__)
             continue
         finally:
             for t in trees:
